@@ -72,7 +72,13 @@ def case(rng):
         k = rng.choice([1, depth - 1, depth, depth + 1, depth + 3]) if depth > 1 else rng.choice([1, 2, 3])
         src, kind = prog_rec(rng, max(1, k))
         mx, st, prot = rng.choice([10, 100]), 0, rng.choice([0, 1])
-    return ["c14 %s prot=%d max=%d step=%d depth=%d streams=%s dev=%s ## %s" % (src.encode().hex(), prot, mx, st, depth, streams, dev, kind)]
+    late = ""
+    if rng.random() < 0.35:
+        # the same program, but it yields once first, so that the runaway / over-deep part executes in a
+        # thread resumed by the scheduler (ExecuteRunning) instead of directly under the host call
+        src = src.replace("prog:\n", "prog:\nwait 0.125\n", 1)
+        late = " late"
+    return ["c14 %s prot=%d max=%d step=%d depth=%d streams=%s dev=%s ## %s%s" % (src.encode().hex(), prot, mx, st, depth, streams, dev, kind, late)]
 
 
 class Prop:
@@ -115,7 +121,7 @@ def check(ctx):
     ctx.samples = ["c14 <hex of: prog/rec/sentinel/ping script> " + s.split(" ", 2)[2]]
     kinds = {}
     cov = {"evaluations": d.cases, "distinct_nontrivial": len(d.distinct),
-           "rule": "scenario = (program template: 7 infinite-loop shapes incl. goto cycles and thread/waitthread spawning loops, finite loops crossing the deadline with protection off, thread/waitthread recursion to a chosen depth) x protection x limit {1,10,100} ms x clock step x nesting limit {1,5,20} x attached-stream subsets x developer flag; every scenario is non-trivial (runs the sentinel, the program, and four recovery probes); distinct by SHA-1",
+           "rule": "scenario = (program template: 7 infinite-loop shapes incl. goto cycles and thread/waitthread spawning loops, finite loops crossing the deadline with protection off, thread/waitthread recursion to a chosen depth) x started directly by the host call or resumed by the scheduler after a first wait x protection x limit {1,10,100} ms x clock step x nesting limit {1,5,20} x attached-stream subsets x developer flag; every scenario is non-trivial (runs the sentinel, the program, and four recovery probes); distinct by SHA-1",
            "exhaustive": False, "skipped_after_failures": d.skipped}
     return common.finish(ctx, "proof", cov, TRUSTED, ASSUME,
                          "cd lean && lake build && #print axioms audit; python3 tools/check.py C14")
